@@ -29,6 +29,18 @@ def run(line):
 
 def main():
     only = set(sys.argv[1:])
+    # work from a snapshot of /repo's HEAD, so that a seed evaluation that patches /repo's working
+    # tree for a moment cannot leak into a scratch copy
+    if not os.environ.get("JBV_MUT_REPO"):
+        import atexit
+        import shutil
+        import tempfile
+        snap = tempfile.mkdtemp(prefix="jbv-corpus-repo.")
+        subprocess.run("git -C /repo archive HEAD | tar -x -C %s" % snap, shell=True, check=True)
+        if os.path.isdir("/repo/models") and not os.path.exists(os.path.join(snap, "models")):
+            os.symlink("/repo/models", os.path.join(snap, "models"))
+        os.environ["JBV_MUT_REPO"] = snap
+        atexit.register(lambda: shutil.rmtree(snap, ignore_errors=True))
     lines = [l for l in open(os.path.join(VERIF, "mutants", "corpus.tsv")) if l.strip() and not l.startswith("#")]
     if only:
         lines = [l for l in lines if l.split("\t")[0] in only or any(o in l.split("\t")[1].split(",") for o in only)]
